@@ -28,21 +28,21 @@ P == CASE Profile = "c04q" ->
       [] Profile = "c04t" ->
             [slots |-> <<<<"src", "h.h">>, <<"inc", "h.h">>, <<"sys", "h.h">>, <<"inc", "g.h">>, <<"src", "g.h">>>>,
              bodies |-> {"def", "guard", "once", "incq", "inca", "testX"},
-             stmts |-> {"qh", "ah", "qg", "ag", "defX", "mq", "ma", "undefM"}, maxmain |-> 2, nmains |-> 1,
+             stmts |-> {"qh", "ah", "qg", "ag", "defX", "mq", "ma", "undefM", "inch"}, maxmain |-> 2, nmains |-> 1,
              idirs |-> {<<Iu("inc"), Is("sys")>>, <<Iu("inc")>>, <<Is("sys"), Iu("inc")>>, <<Iu("sys"), Iu("inc")>>, <<>>},
              forced |-> {<<>>, <<"g.h">>}, nents |-> 1, plats |-> <<"p1">>]
       [] Profile = "sim" ->
             [slots |-> <<<<"src", "h.h">>, <<"inc", "h.h">>, <<"sys", "h.h">>, <<"ext", "h.h">>,
                          <<"src", "g.h">>, <<"inc", "g.h">>, <<"ext", "g.h">>>>,
              bodies |-> {"plain", "def", "guard", "once", "testX", "undefX", "defX", "incq", "inca", "gincq"},
-             stmts |-> {"qh", "ah", "qg", "ag", "defX", "undefX", "testX", "mq", "ma", "dead", "undefM"},
+             stmts |-> {"qh", "ah", "qg", "ag", "defX", "undefX", "testX", "mq", "ma", "dead", "undefM", "inch"},
              maxmain |-> 4, nmains |-> 2,
              idirs |-> {<<Iu("inc"), Is("sys")>>, <<Iu("inc")>>, <<Is("sys"), Iu("inc")>>, <<Iu("sys"), Iu("inc")>>, <<>>,
                         <<Iu("ext"), Iu("inc")>>, <<Iu("inc"), Iu("ext"), Is("sys")>>, <<Iu("src"), Iu("inc")>>, <<Iu("inc"), Iu("src")>>},
              forced |-> {<<>>, <<"g.h">>}, nents |-> 3, plats |-> <<"p1", "p2">>]
       [] Profile = "c08q" ->
             [slots |-> <<<<"inc", "h.h">>, <<"inc", "g.h">>>>,
-             bodies |-> {"once", "guard", "testX", "defX", "undefX"}, stmts |-> {"qh", "qg", "testX", "defX"},
+             bodies |-> {"once", "guard", "testX", "defX", "undefX"}, stmts |-> {"qh", "qg", "testX", "defX", "inch"},
              maxmain |-> 2, nmains |-> 2, idirs |-> {<<Iu("inc")>>}, forced |-> {<<>>}, nents |-> 2, plats |-> <<"p1", "p2">>]
       [] Profile = "c08m" ->
             [slots |-> <<<<"inc", "h.h">>, <<"inc", "g.h">>>>,
@@ -65,7 +65,7 @@ P == CASE Profile = "c04q" ->
       [] Profile = "c18" ->
             [slots |-> <<<<"src", "h.h">>, <<"inc", "h.h">>, <<"inc", "g.h">>, <<"ext", "g.h">>>>,
              bodies |-> {"def", "guard", "once", "miss", "unk", "incq", "testX"},
-             stmts |-> {"qh", "ah", "qg", "ag", "missq", "missa", "unk", "dead", "mq", "ma", "defX"},
+             stmts |-> {"qh", "ah", "qg", "ag", "missq", "missa", "unk", "dead", "mq", "ma", "defX", "inch"},
              maxmain |-> 3, nmains |-> 2,
              idirs |-> {<<Iu("inc")>>, <<>>, <<Iu("inc"), Is("ext")>>}, forced |-> {<<>>}, nents |-> 3, plats |-> <<"p1", "p2">>]
 
@@ -74,6 +74,11 @@ P == CASE Profile = "c04q" ->
 CcChoices == IF Profile = "c18" THEN {"gcc", "weirdcc"} ELSE {"gcc"}
 FlagChoices == IF Profile = "c18" THEN {"", "-fweird-option"} ELSE {""}
 GhostChoices == IF Profile = "c18" THEN {FALSE, TRUE} ELSE {FALSE}
+\* -DHDR=<header name>: the operand of a computed include may come from the command line, so the same
+\* `#include HDR` directive means different files in different translation units
+HdrChoices == CASE Profile = "c18" -> {"U", "q:h.h", "a:g.h", "q:nope.h"}
+                [] Profile \in {"sim", "c04t", "c08q"} -> {"U", "q:h.h", "a:g.h", "q:g.h"}
+                [] OTHER -> {"U"}
 
 Slots == P.slots
 Bodies == P.bodies
@@ -130,6 +135,7 @@ Stmt(s) ==
     [] s = "missq" -> <<Inc("q", "nope.h"), C>>
     [] s = "missa" -> <<Inc("a", "nope.h"), C>>
     [] s = "unk" -> <<[k |-> "unknown"], C>>
+    [] s = "inch" -> <<IfDef("HDR"), [k |-> "includem", m |-> "HDR"], Endif, C>>
     [] s = "undefM" -> <<[k |-> "undef", m |-> "M_inc"], [k |-> "undef", m |-> "M_src"], C>>
 
 \* every main ends by testing which header's macro is visible (so that the choice of header
@@ -171,14 +177,14 @@ CloseMain == /\ stage = "main" /\ ns > 0
              /\ IF si < NMains THEN si' = si + 1 /\ stage' = "main" ELSE si' = 1 /\ stage' = "tu"
              /\ UNCHANGED ents
 
-DefsOf(x) == [m \in Macros |-> IF m = "X" THEN x ELSE "U"]
+DefsOf(x, hdr) == [m \in Macros |-> IF m = "X" THEN x ELSE IF m = "HDR" THEN hdr ELSE "U"]
 AddEntry == /\ stage = "tu" /\ Len(ents) < NEntries
             /\ \E p \in 1..Len(Plats), mi \in 1..NMains, x \in {"U", "1"}, ids \in IdirChoices, fo \in ForcedChoices,
-                  cc \in CcChoices, xf \in FlagChoices, gh \in GhostChoices :
+                  cc \in CcChoices, xf \in FlagChoices, gh \in GhostChoices, hd \in HdrChoices :
                  \* canonical: platforms are used in order, without gaps
                  /\ (IF p = 1 THEN TRUE ELSE \E j \in 1..Len(ents) : ents[j].plat = Plats[p - 1])
                  /\ ents' = Append(ents, [plat |-> Plats[p], file |-> MainId(mi), x |-> x, idirs |-> ids, forced |-> fo,
-                                          cc |-> cc, xflag |-> xf, ghost |-> gh])
+                                          cc |-> cc, xflag |-> xf, ghost |-> gh, hdr |-> hd])
             /\ UNCHANGED <<stage, si, files, cur, ns>>
 
 \* the order in which a compiler searches: -I directories first, then -isystem directories
@@ -186,7 +192,7 @@ SearchOrder(ids) == LET U == SelectSeq(ids, LAMBDA r : ~r.sys)
                         S == SelectSeq(ids, LAMBDA r : r.sys)
                     IN [i \in 1..(Len(U) + Len(S)) |-> IF i <= Len(U) THEN U[i].d ELSE S[i - Len(U)].d]
 
-RefEntry(e) == [file |-> e.file, defs |-> DefsOf(e.x), idirs |-> SearchOrder(e.idirs), forced |-> e.forced, cwd |-> "root"]
+RefEntry(e) == [file |-> e.file, defs |-> DefsOf(e.x, e.hdr), idirs |-> SearchOrder(e.idirs), forced |-> e.forced, cwd |-> "root"]
 Run(e) == RunTU(files, RefEntry(e))
 
 AttrSeq(S) == SetToSeq(S)
